@@ -308,13 +308,18 @@ Fixpoint groups_of (ops : list op) (seen : list N) : list N :=
 
 Definition ops_of_group (g : N) (ops : list op) : list op := filter (fun o => N.eqb (o_group o) g) ops.
 
-(* SendBatch; the boolean is "returned an error" *)
-Definition send_batch (st : state) (hook : N) (ops : list op) : state * bool :=
+(* SendBatch with the groups taken in the order gs; the boolean is "returned an error".
+   Go ranges over the map groupedOps: any order of the batch's groups can occur. *)
+Definition send_batch_ordered (gs : list N) (st : state) (hook : N) (ops : list op) : state * bool :=
   if negb (forallb validate_op ops) then (st, true)
   else
     let v := fold_left (fun v g => apply_group_operations hook v g (ops_of_group g ops))
-                       (groups_of ops []) (st_vault st) in
+                       gs (st_vault st) in
     send_batch_v0 hook (mkState v (st_counters st) (st_gauges st) (st_histograms st)) (ops_of_group 0 ops).
+
+(* the deterministic model used in the theorems: groups in order of first appearance *)
+Definition send_batch (st : state) (hook : N) (ops : list op) : state * bool :=
+  send_batch_ordered (groups_of ops []) st hook ops.
 
 (* a hook run: the metrics file is parsed (shortcuts applied), then SendBatch *)
 Definition hook_batch (st : state) (hook : N) (written : list op) : state * bool :=
